@@ -40,6 +40,18 @@ pub fn replay(v: &Value) -> i32 {
             let k = crate::amlobj::SIZED_KINDS.iter().position(|x| *x == kind).unwrap_or(0);
             let nv = r["name_variant"].as_u64().unwrap_or(0) as usize;
             let direct = r["direct_child"].as_bool().unwrap_or(false);
+            if let Some(n) = r["children"].as_u64() {
+                let w = r["child_width"].as_u64().unwrap_or(1) as usize;
+                match twice(|| catch(|| crate::amlobj::sized_many(k, n as usize, w))) {
+                    Some(Ok(b)) => {
+                        let ol = crate::amlobj::opcode_len(k);
+                        println!("{} with {} children of {} bytes: {} bytes; {} follow the opcode; PkgLength {} decodes to {:?}", kind, n, w, b.len(), b.len() - ol, hex(&b[ol..(ol + 4).min(b.len())]), pkg_decode(&b[ol..]));
+                    }
+                    Some(Err(m)) => println!("{} with {} children panicked: {}", kind, n, m),
+                    None => return 2,
+                }
+                return 0;
+            }
             match twice(|| catch(|| crate::amlobj::sized_v(k, pad, nv, direct))) {
                 Some(Ok(b)) => {
                     let ol = crate::amlobj::opcode_len(k);
